@@ -270,6 +270,10 @@ class ImageBatch(DataTensor):
             arg = (grid,) * shape[0]
         else:
             arg = tuple(arg)
+            if len(arg) == 1:
+                arg = arg * shape[0]
+            elif len(arg) != shape[0]:
+                raise ValueError("Number of image grids must be one or match size of image batch")
             if any(grid.shape != shape[2:] for grid in arg):
                 raise ValueError(
                     "Image grid sizes must match spatial dimensions of image batch tensor"
